@@ -706,7 +706,8 @@ func (e *Env) call(n *ECall) Val {
 			}
 		case *types.Map:
 			lf, ls := g.mapLenFam(u)
-			return Val{T: fmt.Sprintf("(select %s %s)", g.heapGet(e.state(), lf, ls), v.T), S: g.idx(), GT: types.Typ[types.Int]}
+			// len of a nil map is 0
+			return Val{T: fmt.Sprintf("(ite (= %s 0) %s (select %s %s))", v.T, g.ilit64(0), g.heapGet(e.state(), lf, ls), v.T), S: g.idx(), GT: types.Typ[types.Int]}
 		case *types.Array:
 			return g.intConst(big.NewInt(u.Len()), types.Typ[types.Int])
 		}
